@@ -367,7 +367,9 @@ class BoolValue(PrimitiveValue):
 
     def cast(self, new_type):
         if new_type == DataType.INT:
-            return IntValue(int(self.data), self.span)
+            # Like (2 is int), an explicit cast to int does not retain
+            # the literal's implicit coercibility to byte.
+            return IntValue(int(self.data), self.span, shrinkable=False)
         elif new_type == DataType.BYTE:
             return ByteValue(int(self.data), self.span)
         return super().cast(new_type)
